@@ -205,7 +205,9 @@ func judge(c Case, w *vkit.W) {
 				w.Fail(c, "not-canonical", fmt.Sprintf("%s of %d under DefaultFormat subset %#x = %q want %q", v.path, c.N, c.Default, v.got, v.want))
 			}
 		}
-		w.RetainBytes(c, "MarshalText", b, wantDef)
+		if err == nil && string(b) == wantDef {
+			w.RetainBytes(c, "MarshalText", b, wantDef)
+		}
 		if b2, err := n.MarshalText(); err == nil {
 			w.Owned(c, "MarshalText", b2, wantDef, n.MarshalText)
 		}
